@@ -1,6 +1,6 @@
 (** C09  Every zoom level of a multires file equals direct coarsening of its base.
     Only statements; proofs are in Proofs/ZoomProofs.v.  Model: Model/Zoom.v. *)
-From Cooler Require Import Model.Zoom Proofs.BinsProofs Proofs.PixelsProofs Proofs.CoarsenProofs Proofs.ZoomProofs.
+From Cooler Require Import Model.Zoom Proofs.BinsProofs Proofs.PixelsProofs Proofs.CoarsenGroupBy Proofs.CoarsenProofs Proofs.ZoomProofs.
 From Coq Require Import Sorted Permutation.
 
 (** get_multiplier_sequence, when it returns: resn = sorted(set(bases) | set(resolutions)); every entry is
@@ -44,6 +44,43 @@ Theorem C09_zoom_level_eq_direct : forall bases res chunksize batchsize,
      exists r, In r res /\ forall b, In b (map fst bases) -> r mod b <> 0).
 Proof. exact zoom_level_eq_direct. Qed.
 Print Assumptions C09_zoom_level_eq_direct.
+
+(** the same for zoomify_cooler(columns=, agg=) with ANY value type and any aggregation that is permutation
+    invariant and composes over a partition into non-empty blocks (sum, max, min: C08_sum_max_min_compose;
+    not the mean: ex_C09_mean_chain_refuted) *)
+Theorem C09_zoom_level_eq_direct_any_agg : forall (V : Type) (agg : list V -> V),
+  (forall vs vs', Permutation vs vs' -> agg vs = agg vs') ->
+  (forall Gs : list (list V), Forall (fun G => G <> []) Gs -> agg (map agg Gs) = agg (concat Gs)) ->
+  forall bases res chunksize batchsize,
+  1 <= chunksize -> 1 <= batchsize -> Positive res -> Positive (map fst bases) ->
+  (forall b c, In (b, c) bases -> ValidCoolerG c) ->
+  (forall lv, zoomify_cooler_g agg bases res chunksize batchsize = Some lv ->
+     Permutation (map fst lv) (np_unique (map fst bases ++ res)) /\ NoDup (map fst lv) /\
+     forall r c, lookup r lv = Some c ->
+       ((In r (map fst bases) /\ lookup r (base_dict bases) = Some c) \/
+        (~ In r (map fst bases) /\ exists b cb k, In b (map fst bases) /\ lookup b (base_dict bases) = Some cb /\
+            2 <= k /\ r = b * k /\ forall cs bs, 1 <= cs -> 1 <= bs -> c = coarsen_cg agg cb k cs bs))
+       /\ ValidCoolerG c) /\
+  (zoomify_cooler_g agg bases res chunksize batchsize = None <->
+     exists r, In r res /\ forall b, In b (map fst bases) -> r mod b <> 0).
+Proof. intros V agg Hp Hc. exact (zoom_level_eq_direct_g agg Hp (composes_decomp agg Hc)). Qed.
+Print Assumptions C09_zoom_level_eq_direct_any_agg.
+
+(** instantiated: sum, max and min (V = Z), as driven by the harness *)
+Theorem C09_zoom_level_eq_direct_sum_max_min : forall op bases res chunksize batchsize,
+  1 <= chunksize -> 1 <= batchsize -> Positive res -> Positive (map fst bases) ->
+  (forall b c, In (b, c) bases -> ValidCoolerG c) ->
+  forall lv, zoomify_cooler_g (agg_of op) bases res chunksize batchsize = Some lv ->
+  forall r c, lookup r lv = Some c -> ~ In r (map fst bases) ->
+  exists b cb k, In b (map fst bases) /\ lookup b (base_dict bases) = Some cb /\ 2 <= k /\ r = b * k /\
+                 c = coarsen_cg (agg_of op) cb k chunksize batchsize.
+Proof.
+  intros op bases res cs bs Hcs Hbs Hr Hb Hv lv E r c Hl Hn.
+  destruct (zoom_level_eq_direct_g (agg_of op) (agg_of_perm op) (agg_of_decomp op) bases res cs bs Hcs Hbs Hr Hb Hv) as [H _].
+  destruct (H lv E) as (_ & _ & D). destruct (D r c Hl) as [[(X & _)|(_ & b & cb & k & A1 & A2 & A3 & A4 & A5)] _]; [contradiction|].
+  exists b, cb, k. repeat split; auto.
+Qed.
+Print Assumptions C09_zoom_level_eq_direct_sum_max_min.
 
 (** the step used along the chain: two coarsenings of a valid cooler compose *)
 Theorem C09_coarsen_c_compose : forall c k1 k2 cs1 bs1 cs2 bs2 cs bs,
@@ -120,3 +157,20 @@ Example ex_C09_spec :
   expand_spec 1000 11719 [Spec4DN] = [1000; 2000; 5000; 10000] /\
   expand_spec 10 200 [SpecInt 20; SpecIntB 40] = [20; 40; 80; 160].
 Proof. vm_compute. repeat split; reflexivity. Qed.
+
+(** max along a chain 2 -> 4 -> 8 equals max over the base block; the mean along the same chain does NOT
+    equal the mean over the base block (which is why the harness never uses mean on chains) *)
+Definition ex_g2 : gcooler Z := ([(0,0,2);(0,2,4);(0,4,6);(0,6,8)], [8], [((0,0),1);((0,2),3);((1,3),5)]).
+Example ex_C09_max_chain :
+  zoomify_cooler_g agg_max [(2, ex_g2)] [4; 8] 1 1 =
+    Some [(8, ([(0,0,8)], [8], [((0,0),5)])); (4, ([(0,0,4);(0,4,8)], [8], [((0,0),1);((0,1),5)])); (2, ex_g2)] /\
+  coarsen_cg agg_max ex_g2 4 1 1 = ([(0,0,8)], [8], [((0,0),5)]).
+Proof. vm_compute. split; reflexivity. Qed.
+Example ex_C09_mean_chain_refuted :
+  (exists lv c, zoomify_cooler_g agg_mean [(2, ex_g2)] [4; 8] 1 1 = Some lv /\ lookup 8 lv = Some c /\
+                c <> coarsen_cg agg_mean ex_g2 4 1 1) /\
+  snd (coarsen_cg agg_mean ex_g2 4 1 1) = [((0,0),3)].
+Proof.
+  split; [|vm_compute; reflexivity].
+  eexists. eexists. split; [vm_compute; reflexivity|]. split; [vm_compute; reflexivity|]. vm_compute. discriminate.
+Qed.
